@@ -96,6 +96,12 @@ def spec_from_seed(run_seed, tier):
     tags = ["variant:" + variant] + ["family:" + f for f in fams]
     prefix = rnd.choice(PREFIX_CLEAN)
     suffix = rnd.choice(SUFFIX_CLEAN)
+    # clean class: the element of a terminal token occurs nowhere else (a unit with a pendant F takes the Cl suffix and vice versa)
+    used_all = "".join(u for u, _ in blocks)
+    if suffix == "F" and "F" in used_all:
+        suffix = "Cl"
+    elif suffix == "Cl" and "Cl" in used_all:
+        suffix = "F"
     if variant == "ambiguous_terminal":
         prefix, blocks[0] = "OCC", ("{0}CCO{1}", blocks[0][1])
     if variant == "symmetric_product":
@@ -348,9 +354,14 @@ def execute(spec):
                 stats["lengths_compared"] += 1
                 stats["split_sums_compared"] = stats.get("split_sums_compared", 0) + 1
                 if abs(p_lib - p_gen) > 2e-6 + 1e-5 * p_gen:
+                    ex = []
+                    if product_permutes_residues(mg):
+                        ex.append("product_automorphism_permutes_residues")
+                    if pattern_matches_elsewhere(mg, run_with.uid_tok, terminal_tokens):
+                        ex.append("terminal_token_pattern_matches_elsewhere")
                     viol("probability_differs_from_generator",
                          f"{n_tot} units of one repeat unit over two adjacent blocks: get_ensemble_prob({smi!r}) = {p_lib!r}, generation produces it with "
-                         f"probability {p_gen!r} (sum over the splits {splits})")
+                         f"probability {p_gen!r} (sum over the splits {splits})", ex)
                     break
             return _result(spec, viols, stats, digests, stats["lengths_compared"])
         # queries ------------------------------------------------------------------------------------
